@@ -48,7 +48,7 @@ def gen_vectors(ctx, kd):
     ctx.cov["transitions"] += r["generated"]
     ctx.stage("mc", module="MC_ParserGuard", design="ideal", distinct_states=r["distinct"], vectors=r["counts"]["PROGRAM"], wall_s=r["wall_s"])
     # the model with the guards of the known findings skipped must break the property exactly there
-    consts2 = dict(consts, KnownDeviations=lib.tla_set(kd), W=1, FullMax=0)
+    consts2 = dict(consts, KnownDeviations=lib.tla_set(kd), W=1, FullMax=0, Fmts=tla_strs(HEADS + ["blte_decompress", "zbsdiff_apply"]))
     cfg2 = ctx.path("mc_pg_dev.cfg")
     lib.write_cfg(cfg2, consts2, "MCInit", "MCNext", invariants=["FoldAgrees", "Witness"])
     r2 = lib.tlc(ctx, "MC_ParserGuard", cfg2, timeout=900)
@@ -129,7 +129,7 @@ def judge(ctx, module, trace, kd, source, stride=None, boundary=None):
     return v, cfg
 
 
-def classify(ctx, verdict, run, source, what_of, max_reports=5):
+def classify(ctx, verdict, run, source, what_of, max_reports=8, group_of=None):
     """VIOLATION lines with replay files (the exact input bytes or the builder program), known-finding counts."""
     for _, fid in verdict["deviations"]:
         lib.note_known(ctx, fid)
@@ -141,9 +141,10 @@ def classify(ctx, verdict, run, source, what_of, max_reports=5):
     for ln in verdict["violations"]:
         e = json.loads(lines[ln - 1])
         sig = what_of(e)
-        if sig in seen:
+        grp = group_of(e) if group_of else sig
+        if grp in seen:
             continue
-        seen.add(sig)
+        seen.add(grp)
         if len(seen) > max_reports:
             break
         inp = run.dump_job(e["id"]) if "id" in e else None
